@@ -24,15 +24,16 @@ META = {
     "Space A (lexer-centric): 4 contexts x every fault position in 2-6 line skeletons x 4 line-break forms x "
     "trim_blocks/lstrip_blocks x 16 whitespace-control settings of the neighbouring and the faulty tag x 13 preceding "
     "multi-line constructs (comment, raw, string literal, expression, tag; own line or glued to the fault line) x 7 "
-    "fault forms.  Space B (compiler/debug-centric): 24 nesting contexts (blocks, overridden blocks, super(), macros, "
+    "fault forms (1 863 680 cases).  Space B (compiler/debug-centric): 26 nesting contexts (blocks, overridden blocks, super(), macros, "
     "call blocks, loops, conditionals, set/filter blocks, includes, imports, parents, two-level nestings) x positions "
-    "x 2 line-break forms x 2 flag settings x 4 whitespace settings x 3 preceding constructs x 10 fault forms.  "
+    "x 2 line-break forms x 2 flag settings x 4 whitespace settings x 3 preceding constructs x 10 fault forms (249 600 cases).  "
     "Runtime faults: the innermost traceback frame whose code filename is a template filename must be (file of the "
     "fault, line of the fault) and the exception must be the very object raised.  Syntax faults: TemplateSyntaxError "
     "lineno/name/filename and the synthetic traceback frame must be that position.",
     "note": "Templates come from a FunctionLoader that supplies a distinct file name per template.  Faults are single-line "
     "constructs (plus two syntax faults whose offending token is on the line after the tag start).  Bounds: quick "
-    "skeletons of 2-3 lines, thorough 2-6; not a full cross product of all dimensions (two sub-spaces, see text).",
+    "skeletons of 2-3 lines, 2 contexts / 2 flag settings / 8 whitespace settings / 4 fault forms in space A (33 280 + 62 400 "
+    "cases), thorough 2-6 lines; not a full cross product of all dimensions (two sub-spaces, see text).",
     "design_ref": "DESIGN.md §4 C35",
 }
 
